@@ -133,7 +133,10 @@ Definition step (rec : mode -> list tok -> res) (m : mode) (ts : list tok) : res
     | KPow =>                                      (* parsePower, right recursive *)
         bind (rec (Lvl 17) ts) (fun e r =>
           match r with
-          | TBin OPow :: r1 => bind (rec (Lvl 16) r1) (fun e2 r2 => Ok (EBin OPow e e2) r2)
+          | TBin OPow :: r1 =>
+              (* the right operand may carry a unary prefix: parseUnary, else parsePower (fix 0323797) *)
+              let operand := match r1 with (TBin OSub | TNot | TBnot) :: _ => 15 | _ => 16 end in
+              bind (rec (Lvl operand) r1) (fun e2 r2 => Ok (EBin OPow e e2) r2)
           | _ => Ok e r
           end)
     | KPrim =>                                     (* parsePrimary *)
@@ -187,8 +190,9 @@ Fixpoint parse (fuel : nat) (m : mode) (ts : list tok) : res :=
 Definition has_other (ts : list tok) : bool :=
   existsb (fun t => match t with TOther => true | _ => false end) ts.
 
-(* each token can send the parser down all 18 levels and into one loop per level *)
-Definition fuel_for (ts : list tok) : nat := 40 * (List.length ts + 2).
+(* always enough (Totality.parse_top_total): every token weighs at most 81 in the termination measure and the
+   descent through the 18 levels costs less than 40 *)
+Definition fuel_for (ts : list tok) : nat := 81 * List.length ts + 40.
 
 (* one statement `expr ;` as parseProgram / ExpressionParser.Parse see it *)
 Inductive top := TopOk (e : expr) | TopErr | TopUnsup | TopFuel.
